@@ -30,6 +30,8 @@ impl Masker for LiterateHaskellMasker {
 
         let mut location = 0;
         let mut in_code_env = false;
+        // Inside `\begin{code}` .. `\end{code}` (as opposed to a bird-track block)
+        let mut in_latex_env = false;
         let mut last_line_blank = false;
 
         for line in source.split(|c| *c == '\n') {
@@ -40,7 +42,8 @@ impl Masker for LiterateHaskellMasker {
             // Code fencing
             let latex_style = matches!(trimmed, r"\begin{code}" | r"\end{code}");
             let code_start = trimmed == r"\begin{code}" || (last_line_blank && line_is_bird);
-            let code_end = trimmed == r"\end{code}" || trimmed.is_empty();
+            // A blank line only ends bird-style code: a LaTeX-style block lasts until its `\end{code}`.
+            let code_end = trimmed == r"\end{code}" || (trimmed.is_empty() && !in_latex_env);
 
             // Toggle on fence
             if (!in_code_env && code_start) || (in_code_env && code_end) {
@@ -48,6 +51,7 @@ impl Masker for LiterateHaskellMasker {
 
                 // Exclude latex-style fence
                 if latex_style {
+                    in_latex_env = in_code_env;
                     location += line.len() + 1; // +1 for the newline split on
                     last_line_blank = trimmed.is_empty();
                     continue;
